@@ -19,6 +19,7 @@ def run(ctx):
     from rules import symprint
     symprint.L2_guards(ctx, "C07.L2", core, G, scope_fns=("ast_to_source", "formatter"))
     symprint.shape_rules(ctx, "C07.R7", core, G, scope_fns=("ast_to_source", "formatter"))
+    symprint.lambda_head(ctx, "C07.L11", core, G, scope_fns=("ast_to_source", "formatter"))
     # literal numbers are re-emitted exactly (shared with C16.R1 / C05.L10)
     from rules import c16
     ctx.rule("C07.L10", "numbers in formatted source are printed exactly: f64 Display without precision, or precision 0 dominated by fract() == 0", floor=3)
